@@ -40,6 +40,57 @@ package spec
 //@   modifies table.strings.table.dom, table.strings.table.val, table.strings.table.vals
 //@   modifies all(terminalEntry.occurrences), all(terminalEntry.definitions), all(nonTerminalEntry.occurrences), all(productionEntry.occurrences)
 //@   ensures @inv tableOK(table) && sameTables(table) && errs != nil && errs.n >= 0
+// ---- C07: declarations of terminals (productions 9-11, 33, 34) and the final verdict (production 0) ----
+//@   ensures @errs-kept errs == old(errs) && errs.n >= old(errs.n)
+//@   ensures @c34-string-terminal i == 34 && result1 == nil ==> typeis(result0, "grammar.Terminal") && unbox(result0, "grammar.Terminal") == unbox(rhs[0].Val, "string")
+//@       && table.terminals.table.dom == setadd(old(table.terminals.table.dom), unbox(result0, "grammar.Terminal"))
+//@       && (!(unbox(result0, "grammar.Terminal") in old(table.terminals.table.dom)) ==> len(defsOf(table, unbox(result0, "grammar.Terminal"))) == 1
+//@             && defsOf(table, unbox(result0, "grammar.Terminal"))[0].Value == unbox(rhs[0].Val, "string") && !defsOf(table, unbox(result0, "grammar.Terminal"))[0].IsRegex)
+//@   ensures @c33-token-terminal i == 33 && result1 == nil ==> typeis(result0, "grammar.Terminal") && unbox(result0, "grammar.Terminal") == unbox(rhs[0].Val, "string")
+//@       && table.terminals.table.dom == setadd(old(table.terminals.table.dom), unbox(result0, "grammar.Terminal"))
+//@       && (!(unbox(result0, "grammar.Terminal") in old(table.terminals.table.dom)) ==> len(defsOf(table, unbox(result0, "grammar.Terminal"))) == 0)
+//@   ensures @c9-string-def i == 9 && result1 == nil ==> defAdded(table, unbox(rhs[0].Val, "string"), unbox(rhs[2].Val, "string"), false, rhs[0].Pos)
+//@   ensures @c10-regex-def i == 10 && result1 == nil ==> defAdded(table, unbox(rhs[0].Val, "string"), unbox(rhs[2].Val, "string"), true, rhs[0].Pos)
+//@   ensures @c11-predef-def i == 11 && result1 == nil && unbox(rhs[2].Val, "string") in parser.Predefs ==> defAdded(table, unbox(rhs[0].Val, "string"), parser.Predefs[unbox(rhs[2].Val, "string")], true, rhs[0].Pos)
+//@   ensures @c11-unknown-predef i == 11 && !(unbox(rhs[2].Val, "string") in parser.Predefs) ==> errs.n > old(errs.n)
+//@   ensures @c0-recorded-errors-surface i == 0 && old(errs.n) > 0 ==> result1 != nil
+//@   ensures @c0-accepts-only-single-defs i == 0 && result1 == nil ==> singleDefs(table)
+//@   ensures @c0-spec i == 0 && result1 == nil ==> (let sp = unbox(result0, "*Spec") in sp != nil && sp.Name == unbox(rhs[0].Val, "string") && sp.Precedences == old(table.precedences.list)
+//@       && (forall j int :: {sp.Definitions[j]} 0 <= j && j < len(sp.Definitions) ==> (exists a grammar.Terminal :: a in table.terminals.table.dom && sp.Definitions[j] == defsOf(table, a)[0]))
+//@       && (forall a grammar.Terminal :: {a in table.terminals.table.dom} a in table.terminals.table.dom ==> (exists j int :: 0 <= j && j < len(sp.Definitions) && sp.Definitions[j] == defsOf(table, a)[0])))
+
+// ---- C12: precedence directives (productions 12-19) ----
+//@   ensures @c19-passes-rule i == 19 && result1 == nil ==> result0 == rhs[1].Val
+//@   ensures @c17-terminal-handle i == 17 && result1 == nil ==> (let r = unbox(result0, "[]*lr.PrecedenceHandle") in
+//@       len(r) == 1 && r[0] != nil && r[0].Production == nil && r[0].Terminal != nil && deref(r[0].Terminal) == unbox(rhs[0].Val, "grammar.Terminal"))
+//@   ensures @c15-appends-terminal i == 15 && result1 == nil ==> (let r = unbox(result0, "[]*lr.PrecedenceHandle") in let h = unbox(rhs[0].Val, "[]*lr.PrecedenceHandle") in
+//@       len(r) == len(h) + 1 && (forall j int :: {r[j]} 0 <= j && j < len(h) ==> r[j] == h[j])
+//@       && r[len(h)] != nil && r[len(h)].Production == nil && r[len(h)].Terminal != nil && deref(r[len(h)].Terminal) == unbox(rhs[1].Val, "grammar.Terminal"))
+//@   ensures @c18-rule-handles i == 18 && result1 == nil ==> (let r = unbox(result0, "[]*lr.PrecedenceHandle") in let p = unbox(rhs[0].Val, "[]*grammar.Production") in
+//@       len(r) == len(p) && (forall j int :: {r[j]} 0 <= j && j < len(p) ==> r[j] != nil && r[j].Production == p[j] && r[j].Terminal == nil))
+//@   ensures @c16-appends-rule-handles i == 16 && result1 == nil ==> (let r = unbox(result0, "[]*lr.PrecedenceHandle") in let h = unbox(rhs[0].Val, "[]*lr.PrecedenceHandle") in let p = unbox(rhs[1].Val, "[]*grammar.Production") in
+//@       len(r) == len(h) + len(p) && (forall j int :: {r[j]} 0 <= j && j < len(h) ==> r[j] == h[j])
+//@       && (forall k int :: {r[k]} len(h) <= k && k < len(r) ==> r[k] != nil && r[k].Production == p[k - len(h)] && r[k].Terminal == nil))
+//@   loop[7] invariant len(handles) == __i7 && (forall j int :: {handles[j]} 0 <= j && j < __i7 ==> handles[j] != nil && allocated(handles[j]) && handles[j].Production == prods[j] && handles[j].Terminal == nil)
+//@   loop[8] invariant len(handles) == len(before(handles)) + __i8 && (forall j int :: {handles[j]} 0 <= j && j < len(before(handles)) ==> handles[j] == before(handles)[j])
+//@   loop[8] invariant forall k int :: {handles[k]} len(before(handles)) <= k && k < len(handles) ==> handles[k] != nil && allocated(handles[k]) && handles[k].Production == prods[k - len(before(handles))] && handles[k].Terminal == nil
+// a directive records one new level, last, with the associativity written and exactly the handles listed
+//@   ensures @c12-left i == 12 && result1 == nil ==> (let l = unbox(result0, "*lr.PrecedenceLevel") in l != nil && l.Associativity == lr.LEFT
+//@       && l.Handles == lr.NewPrecedenceHandles(unbox(rhs[1].Val, "[]*lr.PrecedenceHandle")) && table.precedences.list[len(old(table.precedences.list))] == l)
+//@   ensures @c13-right i == 13 && result1 == nil ==> (let l = unbox(result0, "*lr.PrecedenceLevel") in l != nil && l.Associativity == lr.RIGHT
+//@       && l.Handles == lr.NewPrecedenceHandles(unbox(rhs[1].Val, "[]*lr.PrecedenceHandle")) && table.precedences.list[len(old(table.precedences.list))] == l)
+//@   ensures @c14-none i == 14 && result1 == nil ==> (let l = unbox(result0, "*lr.PrecedenceLevel") in l != nil && l.Associativity == lr.NONE
+//@       && l.Handles == lr.NewPrecedenceHandles(unbox(rhs[1].Val, "[]*lr.PrecedenceHandle")) && table.precedences.list[len(old(table.precedences.list))] == l)
+//@   ensures @directive-appends-one (i == 12 || i == 13 || i == 14) && result1 == nil ==> len(table.precedences.list) == len(old(table.precedences.list)) + 1
+//@       && (forall j int :: {table.precedences.list[j]} 0 <= j && j < len(old(table.precedences.list)) ==> table.precedences.list[j] == old(table.precedences.list)[j])
+//@   ensures @others-keep-levels i != 12 && i != 13 && i != 14 ==> table.precedences.list == old(table.precedences.list)
+// rule -> lhs "=" rhs | lhs "=": the productions handed on (to a rule handle) are the grammar's own, one per alternative, in order
+//@   ensures @c20-rule-productions i == 20 && result1 == nil ==> (let r = unbox(result0, "[]*grammar.Production") in let s = unbox(rhs[2].Val, "Strings") in
+//@       len(r) == len(s) && (forall j int :: {r[j]} 0 <= j && j < len(r) ==> r[j] != nil && r[j] in table.productions.table.dom
+//@          && r[j].Head == unbox(rhs[0].Val, "grammar.NonTerminal") && r[j].Body == s[j]))
+//@   ensures @c21-empty-rule i == 21 && result1 == nil ==> (let r = unbox(result0, "[]*grammar.Production") in
+//@       len(r) == 1 && r[0] != nil && r[0] in table.productions.table.dom && r[0].Head == unbox(rhs[0].Val, "grammar.NonTerminal") && r[0].Body == grammar.E)
+//@   loop[6] invariant len(prods) == __i6 && (forall j int :: {prods[j]} 0 <= j && j < __i6 ==> prods[j] != nil && allocated(prods[j]) && prods[j] in table.productions.table.dom && prods[j].Head == head && prods[j].Body == s[j])
 //@   loop[0] invariant tableOK(table) && sameTables(table)
 //@   loop[1] invariant tableOK(table) && sameTables(table)
 //@   loop[2] invariant tableOK(table) && sameTables(table)
@@ -135,6 +186,8 @@ package spec
 
 //@ func (t *SymbolTable) AddProduction(p *grammar.Production, pos *lexer.Position)
 //@   requires tableOK(t)
+//@   ensures @added p in t.productions.table.dom
+//@   ensures @kept forall q *grammar.Production :: {q in t.productions.table.dom} q in old(t.productions.table.dom) ==> q in t.productions.table.dom
 //@   modifies t.productions, t.productions.table.dom, t.productions.table.val, t.productions.table.vals, all(productionEntry.occurrences)
 //@   ensures tableOK(t) && sameTables(t)
 
